@@ -419,7 +419,9 @@ def c12():
             # and one record carrying the whole pattern in its lists
             whole = [t for t in pat if t >= 0]
             recs2 = [[0] * 7 + [[]] * 8 + [whole] * 4]
-            for rr, page in ((recs, 1000), (recs, 2), (recs2, 1000)):
+            # ... and the same list after a record that contributes one ordered value (the list's values then compete with it)
+            recs3 = [[0] * 7 + [[]] * 8 + [[0]] * 4] + recs2
+            for rr, page in ((recs, 1000), (recs, 2), (recs2, 1000), (recs3, 1000)):
                 if not rr:
                     continue
                 p.cases.append({"page": page, "codec": CODECS[(pi + poff) % 3], "poff": poff, "ops": ops_of("a" * len(rr) + "w", rr)})
@@ -524,6 +526,16 @@ def c08():
     q = ck.quick()
     mc_reader(ck, ["FragmentationInvariant", "TypeOK"], "SingleReadPerPage", "FragmentationInvariant")
     ok = env_files(ck, ["AllTypes", "Document", "Person"] if q else None, 6 if q else 12, [LAYOUT_ONE, LAYOUT_MULTI])
+    big_footer = []
+    for p in ok:
+        if p.key == "fixed:AllTypes":
+            # a footer larger than any plausible read-ahead buffer (24 columns x 130 (400) row groups: about 100 (300) kB)
+            nrg = 130 if q else 400
+            rr0 = export_records([(p.key, p.schema)], 2, 6, ck.seed)[p.key]["recs"]
+            c = {"page": 1000, "codec": "snappy", "poff": 4, "light": True, "ops": ops_of("aw" * nrg, rec_cycle(rr0, 1)),
+                 "reads": [{"mode": "plain"}, {"mode": "chunk", "chunk": 1}, {"mode": "chunk", "chunk": 7}, {"mode": "chunk", "chunk": 4096},
+                           {"mode": "chunk", "chunk": 5, "eofdata": True}, {"mode": "eofdata"}, {"mode": "rand", "seed": ck.seed * 7 + 1}, {"mode": "rand", "seed": ck.seed * 7 + 2}]}
+            big_footer.append((p, c))
     for p in ok:
         for c in p.cases:
             reads = [{"mode": "plain"}]
@@ -533,6 +545,8 @@ def c08():
             reads += [{"mode": "shortat", "allat": True, "how": "one"}, {"mode": "shortat", "allat": True, "how": "half"}]
             reads += [{"mode": "rand", "seed": ck.seed * 100 + i} for i in range(5 if q else 40)]
             c["reads"] = reads
+    for p, c in big_footer:
+        p.cases.append(c)
     run_programs(ok, "c08", timeout=1800)
     n = d = 0
     for p in ok:
@@ -654,7 +668,7 @@ def c09():
     for p in ok:
         cases = []
         for c in p.cases:
-            for how in ("zero", "half"):
+            for how in ("zero", "half", "full"):
                 c2 = dict(c)
                 c2["sinkfault"], c2["faulthow"] = -1, how
                 cases.append(c2)
@@ -703,9 +717,18 @@ def stable_toff(forest):
     return int(hashlib.sha1(json.dumps(forest, sort_keys=True).encode()).hexdigest()[:6], 16)
 
 
+TYPE_REUSE = {
+    "TwoPointers": "package main\n\ntype Addr struct {\n\tZip  int32\n\tCity *string\n}\n\ntype Rec struct {\n\tHome *Addr\n\tWork *Addr\n}\n",
+    "TwoSlices": "package main\n\ntype Tag struct {\n\tID int32\n}\n\ntype Rec struct {\n\tTags []Tag\n\tAlt  []Tag\n}\n",
+    "ValuePointerSlice": "package main\n\ntype Tag struct {\n\tID int32\n}\n\ntype Rec struct {\n\tFirst Tag\n\tOpt   *Tag\n\tMany  []Tag\n}\n",
+    "NestedReuse": "package main\n\ntype Inner struct {\n\tV *string\n}\n\ntype Outer struct {\n\tIn *Inner\n\tK  int64\n}\n\ntype Rec struct {\n\tX *Outer\n\tY *Outer\n\tZ *Inner\n}\n",
+    "ReuseBelowSibling": "package main\n\ntype Pt struct {\n\tX float64\n\tY float64\n}\n\ntype Box struct {\n\tMin *Pt\n\tMax *Pt\n}\n\ntype Rec struct {\n\tOrigin *Pt\n\tBounds *Box\n\tID     int64\n}\n",
+}
+
+
 def c05():
     from vlib import judge
-    from wfam import split_cases
+    from wfam import split_cases, Program
     import sys
     ck = Check("C05", "translation_validation")
     q = ck.quick()
@@ -741,9 +764,18 @@ def c05():
         "all %d schemas with <= 5 nodes (depth <= 3, <= 3 children per group)" % len(forests)
     from wfam import build_and_run
     progs = universe_programs(forests, toff_fn=lambda i, f: stable_toff(f))
-    ck.cov["programs"] = len(progs)
     for p in progs:
         p.schema = p.forest          # the driver re-derives it by reflection; the judge cross-checks (HARNESS/ColumnsMatchSchema)
+    # the universe gives every group its own Go type; real structs use one type for several fields
+    reuse = [Program("reuse:" + k, src, None) for k, src in sorted(TYPE_REUSE.items())]
+    build_programs(reuse)
+    load_schemas(usable(reuse))
+    for p in reuse:
+        if p.build["status"] != "ok":
+            p.schema = []
+    progs += reuse
+    ck.cov["programs"] = len(progs)
+    ck.cov["type_reuse_programs"] = len(reuse)
     cap = int(os.environ.get("VERIF_C05_CAP", "30" if q else "300"))
     recs = export_records([(p.key, p.schema) for p in progs], 2, cap, ck.seed)
     for p in progs:
